@@ -377,7 +377,16 @@ let check_semantics (x : qobs) input (e : expr) =
            | None -> ()
            | Some sql ->
              (match pg_read (chars_of_string sql) with
-              | None -> fail "C03" "SQL-not-readable-by-the-PostgreSQL-model" input ([ ("sql", sql) ] @ cls)
+              | None ->
+                fail "C03" "SQL-not-readable-by-the-PostgreSQL-model" input ([ ("sql", sql) ] @ cls);
+                (* C04 (c): an inline text that is no expression is equivalent to nothing - while the parameterized text is one *)
+                if not (is_bad o.(9)) && eflag o.(9) = "|0" then
+                  (match xtext o.(9) with
+                   | Some psql ->
+                     let (numbered, _) = number_placeholders_ml psql in
+                     if pg_read (chars_of_string numbered) <> None then
+                       fail "C04" "inline-SQL-is-no-expression-while-the-parameterized-SQL-is" input ([ ("inline", sql); ("parameterized", psql) ] @ cls)
+                   | None -> ())
               | Some a ->
                 nontrivial "C03";
                 let bad = ref None in
@@ -491,6 +500,14 @@ let check_single (x : qobs) input =
      | Some s -> if eflag o.(9) = "|1" && s <> "" then fail "C10" "ToParameterizedPostgres-sql-with-error" input [("observed", s)]
      | None -> ())
   end;
+  (* ---- relations between calls of the public API on this input, decided by the observer (last field): DIFF:<property>:<what> ---- *)
+  (if Array.length o > 19 then begin
+     let a = o.(19) in
+     if String.length a > 9 && String.sub a 0 5 = "DIFF:" then
+       fail (String.sub a 5 3) (String.sub a 9 (String.length a - 9)) input []
+     else if is_bad a then fail "C01" "no-panic-no-hang:api-relations" input [("observed", a)]
+     else if a = "ok" then bump "api.relations"
+   end);
   (* ---- C02, C04, C06 on the returned tree / SQL texts ---- *)
   (match tree with
    | Some t ->
@@ -876,9 +893,9 @@ let check_j (doc : string) (o : string array) input =
 (* ---------- C15 on custom drivers ---------- *)
 let check_d (q : string) (spec : string) (o : string array) input =
   let e = parse_tree o.(0) in
-  let rm = ref [] and ov = ref [] in
+  let rm = ref [] and ov = ref [] and em = ref [] in
   List.iter (fun part -> match String.split_on_char '=' part with
-    | [k; v] when v <> "" -> List.iter (fun n -> if k = "rm" then rm := int_of_string n :: !rm else if k = "ov" then ov := int_of_string n :: !ov) (String.split_on_char ',' v)
+    | [k; v] when v <> "" -> List.iter (fun n -> if k = "rm" then rm := int_of_string n :: !rm else if k = "ov" then ov := int_of_string n :: !ov else if k = "em" then em := int_of_string n :: !em) (String.split_on_char ',' v)
     | _ -> ()) (String.split_on_char ';' spec);
   (* model run with the same (pure) tracing functions: Driver.render_tr, the fold the C15 theorems are about, returns the call log *)
   let fns (op : operator) =
@@ -886,6 +903,7 @@ let check_d (q : string) (spec : string) (o : string array) input =
     if List.mem k !rm || contains spec "nil=1" || contains spec "empty=1" then None
     else Some (fun (l : char list) (r : char list) ->
       let name = (if List.mem k !ov then "g" else "f") ^ string_of_int k in
+      if List.mem k !em then Ret ([], None) else
       Ret (chars_of_string (name ^ "<" ^ string_of_chars l ^ "|" ^ string_of_chars r ^ ">"), None)) in
   let (m, mt) = match render_tr orc2 fns e with
     | Ret (x, tr) -> (m_sres (Ret x), String.concat " " (List.map (fun ((op, l), r) -> Printf.sprintf "%d:%s:%s" (opnum op) (hex l) (hex r)) tr))
@@ -917,7 +935,7 @@ let check_d (q : string) (spec : string) (o : string array) input =
                 for i = 0 to String.length s - m do if String.sub s i m = sub then incr c done; !c in
               let nk = List.length (List.filter (fun x -> x = k) nodes) in
               (* texts of user values may contain the marker too; only flag a shortfall *)
-              if cnt (Printf.sprintf "g%d<" k) < nk then fail "C15" "override-not-applied-at-every-node-of-the-operator" input [("observed", s)]) !ov
+              if not (List.mem k !em) && not (List.exists (fun j -> List.mem j !em) nodes) && cnt (Printf.sprintf "g%d<" k) < nk then fail "C15" "override-not-applied-at-every-node-of-the-operator" input [("observed", s)]) !ov
         | None -> ()
       end
     end
